@@ -145,6 +145,12 @@ func c15Check(ctx *Ctx, res *CaseResult, dir string, p *c15Payload, regen *Rand)
 			if kind == "unspec" {
 				kind = "omit"
 			}
+			if regen.Chance(1, 6) {
+				// a built-in pass as a set-up step: it has no model (nothing is judged for
+				// it) but shapes the IR the later steps work on (generated structs with
+				// hints holding the original union, named anonymous structs, ...)
+				kind = Pick(regen, []string{"disjunction_infer_mapping", "disjunction_to_type", "anonymous_structs_to_named", "disjunction_of_anonymous_structs_to_explicit"})
+			}
 			ps = GenPassSpec(regen, ViewOf(cur), kind)
 			p.Passes = append(p.Passes, ps)
 		} else {
@@ -234,7 +240,11 @@ func c15Check(ctx *Ctx, res *CaseResult, dir string, p *c15Payload, regen *Rand)
 					for _, ps := range p.Passes {
 						kinds = append(kinds, ps.Kind)
 					}
-					out["chain-vs-steps|"+normDiffPath(d)] = fmt.Sprintf("the history %v applied as one chain differs from the same passes applied one by one at %s (steps vs chain)", kinds, d)
+					np := normDiffPath(d)
+					if i := strings.Index(np, ".Hints"); i >= 0 {
+						np = np[:i] + ".Hints" // what differs inside a hint payload is one finding
+					}
+					out["chain-vs-steps|"+np] = fmt.Sprintf("the history %v applied as one chain differs from the same passes applied one by one at %s (steps vs chain)", kinds, d)
 				}
 			}
 		}
